@@ -11,6 +11,7 @@ ASSUMPTIONS = ["indices in range (documented domain)", "integer or dyadic-ration
 STRATA = [
     ("uf-random", 1500, 30000),
     ("uf-chains", 300, 6000),
+    ("uf-tournament", 500, 8000),
     ("ft-random", 1500, 30000),
     ("ft-size-ctor", 300, 6000),
     ("uf-exhaustive", 1, 1),
@@ -70,6 +71,38 @@ def gen(stratum, rng, tier):
             ops.append((k, rng.randrange(n), rng.randrange(n)))
             if rng.random() < 0.2:
                 ops.append(("u", rng.randrange(n), rng.randrange(n)))
+        return {"kind": "uf", "n": n, "ops": ops}
+    if stratum == "uf-tournament":
+        # several maximal-height trees (binomial trees of 2**k elements built leader-with-leader, no reads in between),
+        # then unions/queries that start from the deepest elements of one tree and reach into another tree:
+        # anything that relies on a side effect of find() (full compression) or on ranks shows only here
+        sizes = []
+        while sum(sizes) < 6 or (sum(sizes) < 40 and rng.random() < 0.7):
+            sizes.append(1 << rng.choice([0, 1, 2, 2, 3, 3, 3, 4]))
+        n = sum(sizes)
+        order = list(range(n))
+        rng.shuffle(order)
+        ops, blocks, base = [], [], 0
+        rev = rng.random() < 0.5
+        for sz in sizes:
+            blk = order[base:base + sz]
+            base += sz
+            if rev:
+                blk.reverse()
+            blocks.append(blk)
+            step = 1
+            while step < sz:
+                for i in range(0, sz - step, 2 * step):
+                    a, b = blk[i], blk[i + step]
+                    ops.append(("u", a, b) if rng.random() < 0.5 else ("u", b, a))
+                step *= 2
+        for _ in range(rng.randint(3, 14)):
+            k = rng.choice("uuuuufcqsg")
+            ba = rng.choice(blocks)
+            bb = rng.choice(blocks)
+            a = ba[-1] if rng.random() < 0.5 else rng.choice(ba)
+            b = bb[-1] if rng.random() < 0.3 else rng.choice(bb)
+            ops.append((k, a, b))
         return {"kind": "uf", "n": n, "ops": ops}
     if stratum in ("ft-random", "ft-size-ctor"):
         n = rng.randint(1, 12)
